@@ -1,9 +1,9 @@
 SPECIFICATION Spec
 CONSTANTS
-  MaxObjs = 2
-  UIds <- UAll
-  RowSet <- RowsPairwise
-  AllowDup = FALSE
+  MaxObjs = 3
+  UIds <- UDup
+  RowSet <- RowsPlain
+  AllowDup = TRUE
   DedupInput = FALSE
   OfsPlain = FALSE
   EmitMod = 1
@@ -11,7 +11,4 @@ CONSTANTS
 INVARIANT PrefixInv
 INVARIANT PackInv
 INVARIANT IterInv
-INVARIANT IdxInv
-INVARIANT GitInv
-INVARIANT CountInv
 CHECK_DEADLOCK FALSE
